@@ -100,6 +100,15 @@ func init() {
 			}
 			panic(pathEnd{endEngineBug, "vpClock: the clock stub has not returned " + name})
 		},
+		// vpJSONAppendString(dst, s, escapeHTML): runs the REAL encoding/json.appendString[string]
+		// (the escaping loop of json.Marshal) on symbolic bytes.
+		"vpJSONAppendString": func(e *Exec, caller *frame, _ *ssa.Function, a []Value) Value {
+			fn := e.p.jsonAppendString()
+			if fn == nil {
+				e.unsupported("encoding/json.appendString[string] not found in the SSA program")
+			}
+			return e.call(caller, 0, fn, a)
+		},
 		"vpHash64": vpHash64,
 		"vpNote": func(e *Exec, _ *frame, _ *ssa.Function, a []Value) Value {
 			e.obs = append(e.obs, obsRec{tag: argStr(e, a[0])})
